@@ -5,6 +5,12 @@ import json
 BASELINE = "cd /repo && go test -mod=mod -json -vet=off -count=1 -timeout 25m ./..."
 
 CHECKS = {
+ "C19": dict(
+  engine="E2 history explorer",
+  technique="explicit enumeration (DFS) of AddEmptyTrack/Set...Descriptor histories on real InitSegment objects, every prefix a checked state; invariants + encode/decode/deep-equality round trip",
+  text="All histories of <= 2 tracks over the full product of 16 track kinds x 3 timescales x 6 language tags and of <= 3 (quick) / 4 (thorough) tracks over a diagonal of timescale/language are built with the public API; in every state ids, trex boxes, next-track id, handler/media-header boxes, timescale/language carriage and sample-entry contents are checked on the built tree and on the trees decoded by both decoders, together with Encode==EncodeSW, Size, re-encode identity, deep equality built vs decoded, and a fragment round trip per track id.",
+  note="Parameter sets are the captured AVC/HEVC sets used by the repository's own tests (two AVC SPS/PPS sets, one HEVC VPS/SPS/PPS set); deep equality ignores decoder position bookkeeping (StartPos).",
+  design="3 C19"),
  "C05": dict(
   engine="E2 history explorer + independent fragment reader",
   technique="explicit enumeration (DFS over operation histories on the real builder objects, every prefix a checked state) under all configurations; differential read-back through both decoders and an independent wire-format reader",
